@@ -28,7 +28,7 @@ EXHAUSTIVE_COMPLETE = True
 
 E = ...
 LEN_FORMS = [[0], [2], [3], [0, E], [2, E], [3, E], [E, 0], [E, 2], [E, 5], [0, 2], [1, 1], [2, 5],
-             [3, 1], [-1, E], [-1, 2], [E, -1], [-1]]
+             [3, 1], [-1, E], [-1, 2], [E, -1], [-1], [E, E]]
 INT = {"min": [[-1], [0], [2]], "max": [[-1], [0], [2]]}
 # 0.54 / 0.46 / 1.2 / 1.3 lie on the wrong side of the base values 0.5 / 1.25 but coincide with them
 # once rounded at precision 1 (a refinement that compares "as the validator would" goes wrong there)
